@@ -79,6 +79,21 @@ CLAIMED.update({
          "conservation/attribution oracle over source-settlement and destination-call logs + quiescence detector", "DESIGN.md §4 C17"),
 })
 
+CLAIMED.update({
+ "C10": ("exploration",
+         "Forced: the RunHandlers goroutine parked right after Started() closed while the waiting goroutine calls Stop()/Stopped(); random lifecycle programs over AddHandler before/after Run, RunHandlers x1..4 (sequential/concurrent), emission the instant Running() closes, Stop of a subset, three endings (stop all, cancel Run context, Close), second Run; scripted subscribers counting Subscribe calls or a GoChannel.",
+         "Subscribers honour their context; handlers are not added during shutdown; races are recorded, not judged.",
+         "forced park at the Started()/stopFn window + lifecycle-program oracle (Subscribe counts, delivery after Running(), quiescence-decided returns)", "DESIGN.md §4 C10"),
+ "C14": ("exploration",
+         "Multisets of messages over few keys (payloads around the 64-byte read limit, SHA-256/Adler-32/metadata hashers) presented by 1..32 goroutines behind a barrier to the real middleware and publisher decorator with a 1 h window (exactly one per key may pass, the rest are dropped as successes/acked); window retention with conservative monotonic stamps and a control ticker; pure hasher laws on generated payload pairs; race detector reports fail the check.",
+         "Reference keys are payload prefixes; hash collisions between different prefixes assumed absent; time only as lower bound / with control ticker.",
+         "exactly-once-per-key counting oracle under concurrent presentation + lower-bound retention monitor + race detector", "DESIGN.md §4 C14"),
+ "C18": ("exploration",
+         "1..32 concurrent SendWithReplies/SendWithReply calls on a shared reply topic through a real GoChannel, Router, CommandProcessor and PubSubBackend; handler outcomes incl. k failures then success (k+1 replies), AckCommandErrors on/off, optional ListenForReplyTimeout; caller behaviours drain / read one then cancel late / never read / cancel at once. Replies attributed by command id; command settlement sampled when the reply Publish returns; after cancel at quiescence OnListenForReplyFinished == 1 per request and no listener goroutine remains, checked before the harness drains the channels of callers that stopped reading.",
+         "Timeout cases judged only after the harness-known deadline; ReplyTimeoutError replies are not attributed.",
+         "attribution oracle over reply logs + sampled-state assertion at reply publish + quiescence detector + goroutine-leak filter", "DESIGN.md §4 C18"),
+})
+
 NOT_YET = {}
 
 def hook_commits():
